@@ -120,7 +120,9 @@ def equiv(parsed, spec, dev):
         f = float(spec[1])
         if math.isnan(f):
             return isinstance(parsed, float) and math.isnan(parsed)
-        return isinstance(parsed, (int, float)) and parsed == f
+        if type(parsed) not in (int, float) or parsed != f:       # (a bool is not the JSON text of any float)
+            return False
+        return not (f == 0 and type(parsed) is float and math.copysign(1, parsed) != math.copysign(1, f))
     if t == 'bool':
         return parsed is bool(spec[1])
     if t == 'none':
@@ -334,6 +336,59 @@ def shared_history(case, ctx):
     ctx.nt(['shared', renderer, poison, abandon], sample=False)
 
 
+MUTABLE = {'todict': ToDict({'n': 0}), 'asdict': AsDict({'n': 0}), 'inlist': [ToDict({'n': 0})]}
+
+# values that compare equal (and hash alike) although their JSON texts differ
+EQUAL_FAMILIES = [[['bool', True], ['int', '1'], ['float', '1.0']], [['bool', False], ['int', '0'], ['float', '0.0'], ['float', '-0.0']],
+                  [['tuple', [['int', '1'], ['int', '0']]], ['tuple', [['bool', True], ['bool', False]]], ['tuple', [['float', '1.0'], ['float', '0.0']]]],
+                  [['str', '1'], ['int', '1']], [['none'], ['bool', False], ['str', '']],
+                  [['tuple', []], ['list', []], ['str', '']], [['float', '2.0'], ['int', '2']],
+                  [['set', [['int', '2']]], ['set', [['int', '3']]]]]
+
+
+def equal_values_history(ctx):
+    """one renderer object renders many values in its life: equal-but-different values, in every order, each get their own text;
+    a long-lived object with a to_dict / asdict hook is rendered from its state at the time of the request"""
+    import itertools
+    app, cell = app_and_cell()
+    for renderer, fmt, cb in (('json', None, None), ('jsondev', None, None), ('basic', 'json', None), ('jsonp', None, None), ('jsonp', None, 'cb'),
+                              ('stream', None, None), ('jsonpdev', None, None)):
+        for fam in EQUAL_FAMILIES:
+            for order in itertools.permutations(fam):
+                for spec in order:
+                    case = [spec, renderer, fmt, None, cb]
+                    ctx.case(case)
+                    body(case, ctx)
+                    if ctx.violations:
+                        return
+        ctx.nt(['equal-values', renderer, cb], sample=False)
+    for renderer in ('json', 'jsondev', 'basic', 'stream', 'jsonp'):
+        for which in ('todict', 'asdict', 'inlist'):
+            if renderer == 'basic' and which != 'inlist':
+                continue        # (render_basic is only claimed for sized values and text, O10)
+            for state in ({'n': 1}, {'n': 2, 'tags': ['a']}, {}, {'n': 1}):
+                obj = MUTABLE[which][0] if which == 'inlist' else MUTABLE[which]
+                obj.d = dict(state)
+                case = {'kind': 'mutable', 'renderer': renderer, 'which': which}
+                ctx.case(case)
+                r = call(app, '/mutable/%s/%s' % (which, renderer), query='format=json' if renderer == 'basic' else '')
+                ctx.requests += 1
+                what = 'GET /mutable/%s/%s with the object in state %r' % (which, renderer, state)
+                if r.exc is not None or r.status != 200:
+                    ctx.mismatch('escaped' if r.exc is not None else 'json-renderer-status', '%s: %s %r' % (what, r.status, r.exc), case)
+                    return
+                try:
+                    got = json.loads(r.body.decode('utf8'))
+                except ValueError as e:
+                    ctx.mismatch('json-invalid', '%s: %s' % (what, e), case)
+                    return
+                if got != ([state] if which == 'inlist' else state):
+                    ctx.mismatch('json-roundtrip', '%s: parsed back as %r' % (what, got), case)
+                    return
+            ctx.nt(['mutable', renderer, which], sample=False)
+    ctx.event('equal-values-and-mutable-hooks-history')
+
+
 def app_and_cell():
     if not _APP:
         from clastic import Application
@@ -351,8 +406,14 @@ def app_and_cell():
         def ep_shared():
             return SHARED          # one long-lived structure, the very same objects on every request
 
+        def ep_mutable(which):
+            return MUTABLE[which]  # long-lived objects with a to_dict / asdict / isoformat hook whose state changes between requests
+
         # the HTML page of render_basic shows the endpoint's name and docstring: one route with a hostile docstring, one without any
-        routes = [('/basic', ep, render_basic), ('/basicplain', ep_plain, render_basic),
+        routes = [('/mutable/<which>/basic', ep_mutable, render_basic), ('/mutable/<which>/json', ep_mutable, render_json),
+                  ('/mutable/<which>/jsondev', ep_mutable, render_json_dev), ('/mutable/<which>/stream', ep_mutable, JSONRender(streaming=True)),
+                  ('/mutable/<which>/jsonp', ep_mutable, JSONPRender()),
+                  ('/basic', ep, render_basic), ('/basicplain', ep_plain, render_basic),
                   ('/shared/basic', ep_shared, render_basic), ('/shared/json', ep_shared, render_json), ('/shared/jsondev', ep_shared, render_json_dev),
                   ('/shared/stream', ep_shared, JSONRender(streaming=True)), ('/shared/jsonp', ep_shared, JSONPRender()), ('/json', ep, render_json), ('/jsondev', ep, render_json_dev),
                   ('/stream', ep, JSONRender(streaming=True)), ('/streamdev', ep, JSONRender(streaming=True, dev_mode=True)),
@@ -642,6 +703,11 @@ def run_shard(spec, ctx):
                         shared_history(case, ctx)
                     except Exception as e:
                         ctx.classify_exc(e, case, 'shared')
+    if ctx.shard == 1:
+        try:
+            equal_values_history(ctx)
+        except Exception as e:
+            ctx.classify_exc(e, {'kind': 'mutable'}, 'shared')
     ctx.hyp(strategy(), body, spec['n'], kind='case')
     if 'unorderable-mapping-keys' in ctx.known_sigs and ctx.shard == 0:
         rep = [['kdict', [[['int', '1'], ['str', 'a']], [['str', 'b'], ['int', '2']]]], 'basic', None, None, None]
@@ -658,4 +724,11 @@ def replay(case, kind, ctx):
     if isinstance(case, dict) and case.get('kind') == 'shared':
         shared_history(case, ctx)
         return
+    if isinstance(case, dict) and case.get('kind') == 'mutable':
+        equal_values_history(ctx)
+        return
+    if case[0][0] in ('bool', 'int', 'float', 'tuple', 'none', 'str', 'set', 'list') and case[1] != 'basic' or case[2] == 'json':
+        equal_values_history(ctx)       # (a value that may have been judged as part of the equal-values history: run that too)
+        if ctx.violations:
+            return
     body(case, ctx)
